@@ -16,7 +16,7 @@ if VERIF not in sys.path:
     sys.path.insert(0, VERIF)
 
 CONTRACT_MODULES = ["c_host_vector", "c_network", "c_environment", "c_state", "c_layout", "c_action", "c_scenarios",
-                    "c_loader", "c_score", "c_generator"]
+                    "c_loader", "c_score", "c_generator", "c_loader_leaf"]
 BOUNDED_QUICK = [{"subnets": [1, 1, 2]}, {"subnets": [1, 2, 1], "addr_perm": [2, 0, 1], "n_sens": 2}]
 BOUNDED_THOROUGH = [{"subnets": [1, 1, 2]}, {"subnets": [1, 2, 1], "addr_perm": [2, 0, 1], "n_sens": 2},
                     {"subnets": [1, 2, 1, 1]}, {"subnets": [1, 1, 1, 1], "n_sens": 2},
